@@ -59,18 +59,24 @@ def preempt_case(draw, tier):
               "allow_memory_overcommit": draw(st.sampled_from([False, False, True])), "random_seed": 0,
               "interactive_prob": 0.3, "query_prob": 0.1, "batch_prob": 0.6}
 
+    # sometimes a segment needs more than the default tenth of a pool: an OOM, a doubled retry, and that bigger container is
+    # what later gets preempted and resumed
+    retry = draw(st.integers(0, 3)) == 0
+
     def seg(kmax):
         return {"cpu": (draw(st.integers(0, kmax)) + 0.5) / tps, "law": draw(st.sampled_from(T.LAWS)),
-                "mem": draw(st.sampled_from([0.01, 0, 0.05, round(ram * 0.04, 6)])),
+                "mem": draw(st.sampled_from([0.01, 0, 0.05, round(ram * 0.04, 6)] + ([round(ram * 0.15, 6)] if retry else []))),
                 "read": (draw(st.integers(0, 1)) + 0.25) * 20.0 / tps}
 
     arrivals = []
     full = draw(st.booleans())
     if full:
         # exactly enough multi-operator non-query pipelines to occupy every CPU, then query bursts
-        params["cpus_per_pool"] = draw(st.sampled_from([2, 1, 3, 4]))
-        params["num_pools"] = draw(st.sampled_from([1, 2]))
-        nbg = params["cpus_per_pool"] * params["num_pools"] + draw(st.sampled_from([0, 0, 1, 2]))
+        params["cpus_per_pool"] = draw(st.sampled_from([2, 1, 3, 4, 5, 7, 12, 20, 30, 25]))
+        params["num_pools"] = draw(st.sampled_from([1, 2, 2, 3]))
+        per_job = max(1, params["cpus_per_pool"] // 10)
+        nbg = -(-params["cpus_per_pool"] // per_job) * params["num_pools"] + draw(st.sampled_from([0, 0, 1, 2]))
+        nbg = min(nbg, 24)
     else:
         nbg = draw(st.integers(2, 7))
     for _ in range(nbg):
